@@ -2,7 +2,7 @@
 CONSTANTS
   MaxNodes = 14
   MaxDepth = 5
-  Kinds = {"text", "expr", "el", "void", "if", "elif", "else", "for", "switch", "call", "callb", "slot", "hcomment", "gcomment", "mcomment", "gocodeml", "raw", "gocode", "doctype"}
+  Kinds = {"text", "expr", "el", "void", "if", "elif", "else", "for", "switch", "call", "callb", "slot", "hcomment", "gcomment", "mcomment", "gocodeml", "raw", "gocode", "gocodei", "doctype"}
   InlineNames = {"span", "a", "x-tag"}
   BlockNames = {"div", "p"}
   VoidNames = {"img", "br", "input", "wbr"}
